@@ -30,7 +30,7 @@ fn corpus(seed: u64, n: u64, small: bool) -> Vec<(String, Tree)> {
 /// games with many infosets (C02 / C03: several threads on sizes an implementation might special-case)
 fn large_corpus() -> Vec<(String, Tree)> {
     // (a chain of depth 130 nests deeper than the JSON reader of the trace specification accepts: 255 levels)
-    let mut games: Vec<(String, Tree)> = zoo::large().into_iter().filter(|(n, _)| n.starts_with("cards")).collect();
+    let mut games: Vec<(String, Tree)> = zoo::large().into_iter().filter(|(n, _)| n.starts_with("cards") || n.starts_with("wide")).collect();
     for (_, t) in games.iter_mut() {
         cfr::label_chance(t);
     }
